@@ -1215,10 +1215,13 @@ theorem cert_sound {e : Env} {o : Oracle} (hs : o.Sound e) :
         exact quantGeneric_sound hs (fun y hy => ih d y hy) p' h
 
 /-- **a certified pair of patterns has the same first success from every state** -/
-theorem certTop_headEq {e : Env} {o : Oracle} (hs : o.Sound e) {p p' : Pat} (h : certTop o p p' = true) :
-    HeadEq e false p p' := by
-  unfold certTop at h
+theorem certTopDir_headEq {e : Env} {o : Oracle} (hs : o.Sound e) {d : Bool} {p p' : Pat} (h : certTopDir o d p p' = true) :
+    HeadEq e d p p' := by
+  unfold certTopDir at h
   obtain ⟨he, hk⟩ := close_errs (by simpa using h)
-  exact (cert_sound hs p false p' he).headEq hk
+  exact (cert_sound hs p d p' he).headEq hk
+
+theorem certTop_headEq {e : Env} {o : Oracle} (hs : o.Sound e) {p p' : Pat} (h : certTop o p p' = true) :
+    HeadEq e false p p' := certTopDir_headEq (d := false) hs h
 
 end RegexVerif.AutoAtomic
